@@ -101,20 +101,52 @@ Definition RelInjective (base : jail) (o : objects) : Prop :=
 Definition AllInside (base : jail) (o : objects) : Prop :=
   forall k, In k (o_keys o) -> rel_of base k <> None.
 
-(** ** Full statements that the pinned procedure does not satisfy (RsyncProofs.v) *)
-(** "an interrupted write never prevents later writes" *)
+(** The two phases of a write. *)
+Definition files_phase (base : jail) (serial : N) (o : objects) : list fsop :=
+  [OMkdirAll (tmp_dir serial)] ++ file_ops base (tmp_dir serial) o.
+Definition switch_phase (v : variant) (cur old : bool) (serial : N) : list fsop :=
+  (if cur
+   then (match v with Repaired => if old then [ORemoveTree old_dir false] else [] | Pinned => [] end)
+        ++ [ORename current_dir old_dir false]
+   else [])
+  ++ [ORename (tmp_dir serial) current_dir false]
+  ++ (if cur || old then [ORemoveTree old_dir false] else []).
+
+(** rsync/current and rsync/old, where present, are directories. *)
+Definition Shape (f : fs) : Prop :=
+  (fs_get current_dir f = None \/ fs_get current_dir f = Some Dir)
+  /\ (fs_get old_dir f = None \/ fs_get old_dir f = Some Dir).
+
+(** The content the last object with relative path [rel] gives the file. *)
+Fixpoint written (base : jail) (o : objects) (rel : path) : option N :=
+  match o with
+  | [] => None
+  | (k, ob) :: rest =>
+      match written base rest rel with
+      | Some c => Some c
+      | None => match rel_of base k with
+                | Some r => if path_eqb r rel then Some (o_content ob) else None
+                | None => None
+                end
+      end
+  end.
+
+(** ** Full statements (RsyncProofs.v) *)
+(** "an interrupted write never prevents later writes": whatever prefix of a write was executed,
+    a later write whose files can be written completes. True of the repaired procedure
+    ([rsync_recovers_after_cut]), false of the pinned one ([rsync_interrupted_then_stuck]). *)
 Definition rsync_never_stuck (v : variant) : Prop :=
   forall f base serial o n serial' o',
-    rsync_sane f = true -> old_harmless f = true -> AllInside base o -> AllInside base o' ->
-    tmp_clean serial f = true -> tmp_clean serial' f = true -> serial <> serial' ->
-    let f1 := cut n (rsync_write_ops_v v f base serial o) f in
+    Shape f ->
+    let f1 := fst (run (firstn n (rsync_write_ops_v v f base serial o)) f) in
+    snd (run (files_phase base serial' o') f1) = true ->
     snd (run (rsync_write_ops_v v f1 base serial' o') f1) = true.
 
 (** "the rsync tree equals the snapshot after every successful write", whatever an earlier
-    attempt for the same serial left in rsync/tmp-<serial> *)
+    attempt for the same serial left in rsync/tmp-<serial> (false: candidate F11f). *)
 Definition rsync_equals_snapshot_unconditional (v : variant) : Prop :=
   forall f base serial o f',
-    rsync_sane f = true -> AllInside base o -> RelInjective base o -> NoDupO o ->
+    AllInside base o -> RelInjective base o -> NoDupO o ->
     run (rsync_write_ops_v v f base serial o) f = (f', true) ->
-    forall rel c, In (rel, c) (tree_of current_dir f') <->
+    forall rel c, fs_file (current_dir ++ rel) f' = Some c <->
                   exists k ob, In (k, ob) o /\ rel_of base k = Some rel /\ c = CData (DObj (o_content ob)).
